@@ -235,6 +235,18 @@ def run(ctx):
         for sub in (["sign", "--mnemonic", phrase, "transaction", "-"], ["sign", "--mnemonic", phrase, "typeddata", "-"], ["hash", "typeddata", "-"],
                     ["hash", "transaction", "-"], ["sign", "--mnemonic", phrase, "message", "-"], ["hash", "data", "-"]):
             cli("cli/documents", sub, stdin=doc.encode("latin1") if doc == "\xff" else doc.encode())
+    # large inputs: every decimal digit count of the length (the eth_sign header carries it in decimal), powers of two
+    sizes = sorted(set([10 ** k + d for k in range(3, 8 if not thorough else 9) for d in (-1, 0)] + [1 << k for k in (12, 16, 20, 23)] + [rng.randrange(10 ** 6, 3 * 10 ** 6)]))
+    for n in sizes:
+        p = os.path.join(tmp, "big%d" % n)
+        with open(p, "wb") as fh:
+            fh.write((b"%d:" % n) * (n // (len(str(n)) + 1) + 1))
+            fh.truncate(n)
+        cli("cli/large-input", ["hash", "message", p], timeout=300)
+        cli("cli/large-input", ["hash", "data", p], timeout=300)
+        if n in (10 ** 6, 10 ** 7) or thorough:
+            cli("cli/large-input", ["sign", "--mnemonic", phrase, "message", p], timeout=300)
+            cli("cli/large-input", ["hex", "encode", p], timeout=300)
     cli("cli/missing-file", ["hash", "message", os.path.join(tmp, "does-not-exist")])
     cli("cli/bad-mnemonic", ["address", "--mnemonic", "abandon"])
     cli("cli/no-args", [])
